@@ -230,6 +230,22 @@ fn c13_sequence_4() {
     kani::cover!(m.refunded > 0);
 }
 
+/// Thorough tier: all 6-step method sequences.
+#[kani::proof]
+fn c13_sequence_6() {
+    let limit: u64 = kani::any();
+    let mut g = Gas::new(limit);
+    let mut m = Model { limit: limit as u128, remaining: limit as u128, refunded: 0 };
+    step(&mut g, &mut m);
+    step(&mut g, &mut m);
+    step(&mut g, &mut m);
+    step(&mut g, &mut m);
+    step(&mut g, &mut m);
+    step(&mut g, &mut m);
+    kani::cover!(m.remaining == 0 && m.limit > 0);
+    kani::cover!(m.refunded > 0);
+}
+
 /// Vacuity twin: same pre-state construction, final `assert!(false)` must be reported FAILED.
 #[kani::proof]
 fn c13_twin_must_fail() {
